@@ -18,8 +18,8 @@ HARNESSES = [
     {"fn": "h_json_clean", "cases": ["good", "good/E", "good/H", "good/s", "trunc", "trunc/E", "cut/E", "junk", "two", "two/E", "good/E:leftover"],
      "quick_cases": ["good", "good/H", "trunc/E", "cut/E", "two/E", "good/E:leftover"], "timeout": {"quick": 180, "thorough": 400}},
     {"fn": "h_long_name", "cases": ["255", "241"], "timeout": {"quick": 90, "thorough": 300}},
-    {"fn": "h_file_clean", "cases": ["good", "good/E", "good/H", "good:hex/E", "trunc", "trunc/E", "cut/E", "junk", "good:nostdout/E", "good:hex:nostdout/E"],
-     "quick_cases": ["good", "good:hex/E", "trunc/E", "cut/E", "junk", "good:nostdout/E", "good:hex:nostdout/E"], "timeout": {"quick": 90, "thorough": 300}},
+    {"fn": "h_file_clean", "cases": ["good", "good/E", "good/H", "good:hex/E", "good:hex", "trunc", "trunc/E", "cut/E", "junk", "good:nostdout/E", "good:hex:nostdout/E"],
+     "quick_cases": ["good", "good:hex/E", "good:hex", "trunc/E", "cut/E", "junk", "good:nostdout/E", "good:hex:nostdout/E"], "timeout": {"quick": 90, "thorough": 300}},
 ]
 BOUNDS = {"fault step": "symbolic in 0..4 (0 = no fault; --file: 0..3, --hex: 0..5) over the output operations open, write, flush, close, print; errno symbolic in {ENOSPC, EPIPE, EIO}",
           "log": "one (case 'two': two) PEL(s) with symbolic severity class {0x00,0x40} and symbolic hidden / report flag "
